@@ -57,6 +57,8 @@ PROPS = {
                     "non-trivial = at least three operations",
             "explanation": "oracles on the real packets: C18.decodable (independent spec decoder, one well-formed message per packet), with all / alternate droppable packets removed, droppable only when asked, "
                            "messages stamped with the call's clock / caller's timestamp and stream (C18.messages_carry_expected_timestamp_and_stream); histories with a failed call = known finding K2"},
+    "C14": {"components": ["amf0"], "rule": AMF0_RULE + "; decm: counts/lengths far above the data present under a counting allocator; deep/deepx: nesting decoded in a child process on a 2 MiB stack",
+            "explanation": "oracles: C14.alloc_bounded (peak live bytes and largest single request of the real decoder <= 256*len + 128 KiB), C14.deep_nesting_no_abort (depths 1..3000 must decode; depth 20000 = known finding K1)"},
     "C16": {"components": ["chunk"], "rule": CHUNK_RULE,
             "explanation": "oracle C06.foreign_stream restricted to interleaved streams (every second fde case)"},
     "C04": {"components": ["amf0"], "rule": AMF0_RULE,
